@@ -39,6 +39,7 @@ BODIES = {
     "T4": ("literal", "dataclasses", "nested", {"post_init_converters": True}),
 }
 _SOLO = {}
+_WARM = {}
 
 
 def _build(name):
@@ -67,6 +68,12 @@ def execute(case):
         return _free_running(case)
     names = case["threads"]
     whole = bool(case.get("whole"))
+    if case["gran"] == "opcode" and not _WARM.get("opcode"):
+        # CPython 3.12 enables per-instruction events lazily: the first traced frames of a process miss them. One throw-away
+        # execution makes the step counts stable (a residual instability would surface as a hard Divergence error, never as a verdict).
+        _WARM["opcode"] = True
+        for f in range(len(names)):
+            sched.Execution([_body(n, _build(n), False) for n in names], [], first=f, granularity="opcode", record_tail=False).run()
     regs = [None if whole else _build(n) for n in names]
     bodies = [_body(n, r, whole) for n, r in zip(names, regs)]
     ex = sched.Execution(bodies, case["schedule"], first=case.get("first", 0), granularity=case["gran"],
@@ -180,11 +187,13 @@ def run(tier, seed):
         for pair in (["T1", "T3"], ["T1", "T2"]):
             plans.append({"threads": pair, "gran": "line", "bound": 2, "whole": False})
             plans.append({"threads": pair, "gran": "call", "bound": 2, "whole": True})
+        plans.append({"threads": ["T1", "T3"], "gran": "opcode", "bound": 1, "whole": False})
+        plans.append({"threads": ["T1", "T2"], "gran": "opcode", "bound": 1, "whole": False})
         for tri in (["T1", "T2", "T3"],):
             plans.append({"threads": tri, "gran": "call", "bound": 2, "whole": False})
     r.rule = ("(a) 5 frameworks x 2 layouts in a fresh worker thread; (b) all schedules with <= bound preemptions for each plan (thread tuple, "
               "granularity, bound): quick 3 pairs (either thread may start) at call granularity bound 2 + line granularity bound 1; thorough all ordered pairs "
-              "of 4 bodies, line granularity bound 2 and whole-pipeline bodies on 3 pairs, two triples; state = tuple of per-thread outcomes; "
+              "of 4 bodies, line granularity bound 2, whole-pipeline bodies and opcode granularity (bound 1) on two pairs, one triple; state = tuple of per-thread outcomes; "
               "transitions = scheduling points executed; non-trivial = schedules with >= 1 preemption")
     r.bounds = {"tier": tier, "plans": plans}
     r.assumptions = ["CPython with the GIL; switches between bytecodes of one line are not explored",
